@@ -85,6 +85,13 @@ def run_one(seed, tape, opts):
     def oracle():
         if viol:
             return
+        for s in w.sides:
+            for rec in s.connect_results:
+                if rec[1] == "failed":
+                    V("C10.open_failed." + rec[2].__name__, "each open is "
+                      "delivered exactly once", "%s: connect(%r) failed with "
+                      "%s" % (s.name, rec[0], rec[2].__name__))
+                    return
         for s, p, qs in cc.subchannel_pairs(w):
             if len(qs) > 1:
                 V("C10.open_twice", "each open is delivered exactly once",
